@@ -259,21 +259,26 @@ pub fn gen_rel(rng: &mut Rng, cfg: &Config, edges: bool) -> f64 {
             if edges {
                 m
             } else {
-                m * (1.0 - 1e-9)
+                (m * (1.0 - 1e-9)).max(1.0)
             }
         }
         2 => {
             if edges {
                 1.0 / m
             } else {
-                (1.0 / m) * (1.0 + 1e-9)
+                ((1.0 / m) * (1.0 + 1e-9)).min(1.0)
             }
         }
         3 => 1.0,
         _ => {
             // small drift around 1 (clock matching)
             let d = rng.uniform(-1.0, 1.0) * (m - 1.0).min(0.01);
-            (1.0 + d).clamp(1.0 / m * (1.0 + 1e-9), m * (1.0 - 1e-9))
+            let (lo, hi) = (1.0 / m * (1.0 + 1e-9), m * (1.0 - 1e-9));
+            if lo <= hi {
+                (1.0 + d).clamp(lo, hi)
+            } else {
+                1.0
+            }
         }
     }
 }
@@ -502,7 +507,7 @@ pub fn gen_ops_ratematch(rng: &mut Rng, cfg: &Config, mix: &OpMix) -> (Vec<Op>, 
             let target = (1.0 + drift) - 0.01 * fifo / (cfg.chunk as f64).max(16.0);
             let lo = (1.0 / m) * (1.0 + 1e-12);
             let hi = m * (1.0 - 1e-12);
-            rel = target.clamp(lo, hi);
+            rel = if lo <= hi { target.clamp(lo, hi) } else { 1.0 };
             ops.push(Op::SetRatio { rel, ramp: rng.chance(ramp_p), relative_api: rng.chance(0.5) });
         }
         if rng.chance(stall_p) {
